@@ -115,7 +115,7 @@ def run_step(inst):
     recurrence  col_t[s] = max over admissible (p -> s) of col_{t-1}[p] + trans(p, s) + em(s, t).  Covers traces of any length."""
     from leuvenmapmatching.matcher.base import LatticeColumn
     from leuvenmapmatching.util.segment import Segment
-    from symx.absmap import P, key_ps
+    from symx.absmap import P, key_ps, t_of, flipped
     _, name, g, kw, length = inst[:5]
     budget = inst[5] if len(inst) > 5 else None
     cfg = Cfg(ne=False, T=2, **kw)
@@ -141,7 +141,7 @@ def run_step(inst):
             if isinstance(st, tuple):
                 u, v = st
                 k = key_ps("o0", f"n{u}", f"n{v}")
-                em = Segment(u, mp.loc[u], v, mp.loc[v], P("proj:" + k), mp.t(k))
+                em = Segment(u, mp.loc[u], v, mp.loc[v], P("proj:" + k), t_of(mp, k, f"n{u}", f"n{v}"))
                 dist = mp.sq(k)
             else:
                 em = Segment(st, mp.loc[st])
@@ -207,7 +207,8 @@ def run_step(inst):
                 if isinstance(st, tuple):
                     u, w = st
                     k = key_ps("o0", f"n{u}", f"n{w}")
-                    em = Segment(u, mp.loc[u], w, mp.loc[w], P("proj:" + k), table.get('t:' + k))
+                    tk = table.get('t:' + k)
+                    em = Segment(u, mp.loc[u], w, mp.loc[w], P("proj:" + k), (1.0 - tk) if flipped(f"n{u}", f"n{w}") else tk)
                     dist = table.get('d:' + k)
                 else:
                     em, dist = Segment(st, mp.loc[st]), mp.distance(path[0], mp.loc[st])
